@@ -82,22 +82,6 @@ pub fn stack_depth() -> usize {
 pub fn stack_entry(i: usize) -> (usize, usize) {
     unsafe { (SM.data[i][2], SM.data[i][3]) }
 }
-/// Contents equality of two model states (live entries only, offsets only).
-pub fn same_contents(a: &StackModel, b: &StackModel) -> bool {
-    if a.len != b.len {
-        return false;
-    }
-    let mut i = 0;
-    let mut ok = true;
-    while i < CAP {
-        if i < a.len && (a.data[i][2] != b.data[i][2] || a.data[i][3] != b.data[i][3]) {
-            ok = false;
-        }
-        i += 1;
-    }
-    ok
-}
-
 fn to_cell<T>(e: &T) -> Cell {
     assert!(core::mem::size_of::<T>() == core::mem::size_of::<Cell>());
     unsafe { core::mem::transmute_copy::<T, Cell>(e) }
